@@ -162,9 +162,24 @@ Definition shard_ngram_search (d : idata) (g : N) : outcome (list N) :=
   let s := btree_get (i_file d) bt g in
   file_read (i_file d) (fst s) (snd s).
 
-(** shardedSearcher.streamSearch + searchOneShard: a panic inside one shard is contained and counted
-    (Stats.Crashes), but an ERROR returned by one shard aborts the whole search:
+(** shardedSearcher.streamSearch + searchOneShard.  A panic inside one shard is contained and counted
+    (Stats.Crashes).  BEFORE the repair "fix: search: a shard whose Search/List returns an error is counted as a
+    crashed shard" an ERROR returned by one shard aborted the whole search:
         if r.err != nil { stop(); err = r.err; continue }                                   *)
+Fixpoint sharded_search_unfixed (shards : list idata) (g : N) : outcome (list (list N) * N) :=
+  match shards with
+  | [] => Ok ([], 0)
+  | d :: rest =>
+    do acc <- sharded_search_unfixed rest g;
+    match shard_ngram_search d g with
+    | Ok r => Ok (r :: fst acc, snd acc)
+    | Err e => Err e
+    | Panic w => if w =? P_DIVERGE then Panic w else Ok (fst acc, snd acc + 1)
+    end
+  end.
+
+(** after the repair searchOneShard turns a shard's error into an empty result with Stats.Crashes = 1, exactly like
+    a recovered panic; streamSearch's error branch is no longer reached by shard errors *)
 Fixpoint sharded_search (shards : list idata) (g : N) : outcome (list (list N) * N) :=
   match shards with
   | [] => Ok ([], 0)
@@ -172,10 +187,16 @@ Fixpoint sharded_search (shards : list idata) (g : N) : outcome (list (list N) *
     do acc <- sharded_search rest g;
     match shard_ngram_search d g with
     | Ok r => Ok (r :: fst acc, snd acc)
-    | Err e => Err e
+    | Err e => Ok (fst acc, snd acc + 1)
     | Panic w => if w =? P_DIVERGE then Panic w else Ok (fst acc, snd acc + 1)
     end
   end.
+
+(** the results of the shards that answer, in shard order, and the number of shards that do not *)
+Definition shard_answers (shards : list idata) (g : N) : list (list N) :=
+  flat_map (fun d => match shard_ngram_search d g with Ok r => [r] | _ => [] end) shards.
+Definition shard_failures (shards : list idata) (g : N) : N :=
+  nlen (filter (fun d => negb (is_ok (shard_ngram_search d g))) shards).
 
 (** a healthy one-document shard written by the model, and the same file with the top bit of every entry of the
     postings index table set (every content posting list then starts beyond the end of the file) *)
